@@ -11,6 +11,7 @@ import (
 	"sort"
 
 	"golang.org/x/exp/slices"
+	"k8s.io/apimachinery/pkg/api/equality"
 	v1 "k8s.io/apimachinery/pkg/apis/meta/v1"
 	"k8s.io/utils/ptr"
 	"sigs.k8s.io/controller-runtime/pkg/client"
@@ -162,7 +163,9 @@ func (d *DeployableOperands) calculateActionsOnObjects(
 	for key, obj := range desiredState {
 		if _, found := currentState[key]; found {
 			d.inheritFieldsFromCurrent(currentState[key], obj)
-			if reflect.DeepEqual(currentState[key], obj) {
+			// Semantic equality: an object read back from the API server has nil where the desired object has
+			// empty slices/maps; that is not a difference worth an Update on every reconcile.
+			if equality.Semantic.DeepEqual(currentState[key], obj) {
 				objectsNotToChange[key] = obj
 			} else {
 				objectsToUpdate[key] = obj
